@@ -78,11 +78,29 @@ func newEngine(prog *ssa.Program, pkgs []*packages.Package) *Engine {
 		}
 	}
 	curTypes, structs := collectTypes(modPkgs)
+	curObjs := collectObjs(modPkgs)
 	if *flagGenNames {
 		data, _ := json.MarshalIndent(curTypes, "", " ")
 		_ = os.WriteFile(filepath.Join(*flagVerif, "contracts-pinned", "types.json"), append(data, '\n'), 0o644)
+		data, _ = json.MarshalIndent(curObjs, "", " ")
+		_ = os.WriteFile(filepath.Join(*flagVerif, "contracts-pinned", "objects.json"), append(data, '\n'), 0o644)
 	} else {
+		var objNotes []string
+		var baseObjs map[string]objInfo
+		if data, err := os.ReadFile(filepath.Join(*flagVerif, "contracts-pinned", "objects.json")); err == nil && json.Unmarshal(data, &baseObjs) == nil {
+			objNotes = computeObjRenames(baseObjs, curObjs)
+			// the struct table is keyed by (pinned) type names
+			if len(typeRenameRes) > 0 {
+				ct2, st2 := map[string][]varInfo{}, map[string]*types.Struct{}
+				for k, v := range curTypes {
+					ct2[k] = v
+					st2[k] = structs[k]
+				}
+				curTypes, structs = ct2, st2
+			}
+		}
 		e.names = computeRenames(loadBaselineNames(*flagVerif), e.curNames)
+		e.names.notes = append(e.names.notes, objNotes...)
 		var baseTypes map[string][]varInfo
 		if data, err := os.ReadFile(filepath.Join(*flagVerif, "contracts-pinned", "types.json")); err == nil && json.Unmarshal(data, &baseTypes) == nil {
 			e.names.notes = append(e.names.notes, computeFieldRenames(baseTypes, curTypes, structs)...)
